@@ -14,6 +14,8 @@ open Gimli Gimli.Ints
 inductive FormVal where
   | num (v : Nat)
   | bytes (b : Bytes)
+  /-- a signed number (`DW_FORM_sdata`, `DW_FORM_implicit_const`) -/
+  | int (i : Int)
   deriving DecidableEq, Repr
 
 /-- split at the first NUL (`read_null_terminated_slice`) -/
@@ -86,5 +88,38 @@ def decoded (cx : Ctx) : AttrVal → Option FormVal
   | .stringRef idx => cx.strOffsets[idx]?.map .num
   | .lineStringRef idx => cx.lineStrOffsets[idx]?.map .num
   | _ => none
+
+/-! ### signed constants and expression bodies -/
+
+/-- `readForm` extended by the two signed forms: `DW_FORM_sdata` (signed LEB128, C09's
+`Leb.signed`) and `DW_FORM_implicit_const` (nothing is read; the value `ic` is the one stored in
+the abbreviation, `AttributeSpecification::implicit_const_value`) -/
+def readFormFull (e : Endian) (c : Enc) (form : Nat) (ic : Int) (bs : Bytes) : Out (FormVal × Bytes) :=
+  if form = DW_FORM_sdata then do
+    let (v, r) ← Leb.signed bs
+    pure (.int v, r)
+  else if form = DW_FORM_implicit_const then .ok (.int ic, bs)
+  else readForm e c form bs
+
+/-- the bytes of an expression as pass 2 writes them (they do not depend on the position) -/
+def exprBytes (cx : Ctx) (items : List ExprItem) : Option Bytes :=
+  match exprItemsEmit cx 0 items with
+  | .ok (b, _) => some b
+  | _ => none
+
+/-- `InRange`, and signed constants inside `i64`, expression bodies shorter than 2^64 -/
+def AttrVal.InRangeFull (cx : Ctx) (v : AttrVal) : Prop :=
+  v.InRange ∧
+  match v with
+  | .sdata i | .implicitConst i => -(2 : Int) ^ 63 ≤ i ∧ i < 2 ^ 63
+  | .exprloc items => ∀ b, exprBytes cx items = some b → b.length < 2 ^ 64
+  | _ => True
+
+/-- `decoded` extended to signed constants and expressions: every kind except the two reference
+kinds whose placeholders are patched after pass 2 (`UnitRef`, `DebugInfoRef`) -/
+def decodedFull (cx : Ctx) : AttrVal → Option FormVal
+  | .sdata i | .implicitConst i => some (.int i)
+  | .exprloc items => (exprBytes cx items).map .bytes
+  | v => decoded cx v
 
 end Gimli.WUnit
